@@ -150,11 +150,11 @@ def _par_worker(chunk_id):
     a = _PAR
     rec = common.Recorder(a["run"])
     stats = run_programs(rec, a["chunks"][chunk_id], want=a["want"], observers=a["observers"], jobs=a["jobs"],
-                         cap=a["cap"], cls_prefix=a["cls_prefix"], nproc=1)
+                         cap=a["cap"], cls_prefix=a["cls_prefix"], nproc=1, post=a.get("post"))
     return rec.events, stats
 
 
-def run_programs(run, plist, want=("O1", "O2"), observers=None, jobs=None, cap=None, cls_prefix="", nproc=None):
+def run_programs(run, plist, want=("O1", "O2"), observers=None, jobs=None, cap=None, cls_prefix="", nproc=None, post=None):
     """nproc > 1: programs are split round-robin over forked worker processes (each runs both engines in-process and
     owns a small solver pool); their recorded events are replayed into `run` in the parent."""
     from lib import common
@@ -162,7 +162,7 @@ def run_programs(run, plist, want=("O1", "O2"), observers=None, jobs=None, cap=N
     nproc = nproc if nproc is not None else max(1, min(len(plist) // 4, getattr(run.args, "jobs", 8) // 2))
     if nproc > 1:
         chunks = [plist[i::nproc] for i in range(nproc)]
-        _PAR.update(run=run, chunks=chunks, want=want, observers=observers, jobs=2, cap=cap, cls_prefix=cls_prefix)
+        _PAR.update(run=run, chunks=chunks, want=want, observers=observers, jobs=2, cap=cap, cls_prefix=cls_prefix, post=post)
         total = {}
         for res in common.parallel_map(_par_worker, list(range(nproc)), nproc):
             if res and res[0] == "error":
@@ -214,6 +214,8 @@ def run_programs(run, plist, want=("O1", "O2"), observers=None, jobs=None, cap=N
                               + traceback.format_exc().strip().splitlines()[-3][:160])
             continue
         info["bounded_loops"] = len(sevm.logs.bounded_loops)
+        if post is not None:
+            post(run, p, info, recs, ends)
         stats["programs"] = stats.get("programs", 0) + 1
         stats["multi_path"] = stats.get("multi_path", 0) + (1 if len(recs) > 1 else 0)
         stats["halmos_paths"] = stats.get("halmos_paths", 0) + len(recs)
